@@ -167,6 +167,9 @@ open_(['C08'], r'basis\.(bound|singular|count)\.(okay|vanished):\{[^}]*\}',
 open_(['C08'], r'postsolve\.(rcsign|compl-col)\.(okay|vanished):\{[^}]*FreeColSingleton[^}]*RowSingleton[^}]*\}',
       'FreeColSingletonPS followed by RowSingletonPS: the reduced cost of a column whose bound was moved by the row singleton keeps a sign that is only valid for the tightened (finite) bound although the original bound is infinite', regex=True,
       repro='findings/C08_rcsign_freecolsingleton_rowsingleton.lp (keepbounds=true)')
+open_(['C08'], r'unsimplify\.exception\.(okay|vanished):\{[^}]*Aggregation[^}]*\}',
+      'unsimplify() throws XMAISM00 (its own basis dimension check fails) for some optimal vertices of the reduced LP when an Aggregation / DoubletonEquation step has to restore the basis status of the aggregated column (same family as the Aggregation dual postsolve finding)', regex=True,
+      repro='findings/C08_unsimplify_exception_aggregation.lp')
 open_(['C08'], r'postsolve\.(compl-row|dualsign|rcsign|compl-col)\.(okay|vanished):\{[^}]*RowSingleton[^}]*\}',
       'RowSingletonPS: the dual of a removed singleton row gets the wrong sign / is not complementary for a row that is one-sided in the original LP, or the reduced cost stays on the column although the bound it prices came from the singleton row and the original bound is infinite (minimal LP 4x4 with FixBounds, FixVariable, RowSingleton)', regex=True)
 open_(['C08'], r'objoffset\.(okay|vanished):\{[^}]*MultiAggregation[^}]*\}',
